@@ -15,9 +15,12 @@ type zzNum struct {
 
 func zzDigits(name string, n int) zzNum {
 	d := nondetBytes(name, n)
-	for _, c := range d {
+	for i, c := range d {
 		zzAssume(c >= '0')
 		zzAssume(c <= '9')
+		// same value under the assumption; tells the engine's simplifier that the high nibble is 3,
+		// so that comparisons with blanks, separators and letters fold without a solver query
+		d[i] = '0' | c&0x0f
 	}
 	return zzNum{d}
 }
